@@ -85,7 +85,7 @@ type Violation struct {
 }
 
 type Stats struct {
-	Paths, Queries, Asserts, Branches, Steps int
+	Paths, Queries, Asserts, Branches, Steps, Retries int
 	SolverNS                                 int64
 	Reached                                  map[string]int // label -> feasible paths that reached it
 	AssertSites                              map[string]int // obligation -> times asserted
@@ -172,6 +172,15 @@ func (e *Exec) check(extra ...string) string {
 	t0 := time.Now()
 	e.solver.send(sb.String())
 	r := e.solver.readLine()
+	if r == "unknown" && e.solver.baseMS > 0 {
+		// a per-query timeout under machine load is not a verdict: ask once more with six times the limit
+		e.Stats.Retries++
+		e.solver.send("(pop)")
+		e.solver.send(fmt.Sprintf("(set-option :timeout %d)", e.solver.baseMS*6))
+		e.solver.send(sb.String())
+		r = e.solver.readLine()
+		e.solver.send(fmt.Sprintf("(set-option :timeout %d)", e.solver.baseMS))
+	}
 	e.Stats.SolverNS += time.Since(t0).Nanoseconds()
 	return r
 }
@@ -781,6 +790,7 @@ type Solver struct {
 	Log      io.Writer
 	bin      string
 	args     []string
+	baseMS   int // per-query soft timeout given as -t:N (z3 only); 0 = no retry
 }
 
 const prelude = `(set-option :produce-models true)
@@ -812,6 +822,12 @@ func NewSolver(bin string, args ...string) *Solver {
 	s := &Solver{cmd: cmd, in: in, out: bufio.NewReaderSize(out, 1<<16), declared: map[string]string{}, lits: map[string]string{"": "str_empty"}, litIDs: []string{""}, lowered: map[string]bool{}, bin: bin, args: args}
 	if strings.Contains(bin, "cvc5") {
 		s.send("(set-logic ALL)")
+	} else {
+		for _, a := range args {
+			if strings.HasPrefix(a, "-t:") {
+				s.baseMS, _ = strconv.Atoi(a[3:])
+			}
+		}
 	}
 	s.send(prelude)
 	return s
